@@ -1,10 +1,12 @@
 use hsim::supervisor::CheckDef;
 
+pub mod c13;
 pub mod c16;
 pub mod c17;
+pub mod tsig_ref;
 pub mod upd_model;
 pub mod update;
 
 pub fn all() -> Vec<CheckDef> {
-    vec![update::def_c12(), update::def_c14(), c16::def(), c17::def()]
+    vec![update::def_c12(), c13::def(), update::def_c14(), c16::def(), c17::def()]
 }
